@@ -13,18 +13,19 @@ theorem norm1_eq (f : Str) :
     (if !(f == []) then Paths.normpath f else f) = (if f = [] then f else Paths.normpath f) := by
   by_cases h : f = [] <;> simp [h]
 
-/-- the refusal test of one (normalised) component -/
-theorem refuse_eq (alts : List Char) (g : Str) :
-    (((alts.map fun c => [c]).any fun sep => contains g sep) || Paths.isabs g ||
-          startswith g ['/'] || g == ['.', '.'] || startswith g ['.', '.', '/']) =
-      (alts.any (Paths.hasChar · g) || Paths.isabs g || g.head? = some Paths.sep || g = Paths.dotdot
-        || (['.', '.', '/'] : Str).isPrefixOf g) := by
-  simp only [startswith_slash]
-  simp only [List.any_map, Function.comp_def, contains_singleton, Paths.hasChar, Paths.sep, Paths.dotdot, startswith]
+/-! the atoms of the refusal test, each rewritten to the form the model uses; the proofs in
+Props/C14T then compare the two tests up to the order of the `or` operands -/
+
+theorem beq_dotdot (g : Str) : (g == ['.', '.']) = decide (g = Paths.dotdot) := by
   by_cases h : g = ['.', '.']
-  · simp [h]
+  · simp [h, Paths.dotdot]
   · have hb : (g == ['.', '.']) = false := by simpa using h
-    simp only [hb, h, decide_false, Bool.or_false]
-    rfl
+    simp [hb, h, Paths.dotdot]
+
+theorem startswith_sep (f : Str) : startswith f ['/'] = decide (f.head? = some Paths.sep) :=
+  startswith_slash f
+
+theorem startswith_dds (f : Str) :
+    startswith f ['.', '.', '/'] = (['.', '.', '/'] : Str).isPrefixOf f := rfl
 
 end Wz.PyFnsPaths
